@@ -292,7 +292,9 @@ class Engine(EngineBase, AccessMixin, StmtMixin, CallMixin):
             if isinstance(m, ast.Attribute):
                 r = self.ev(m.value, qq, sfc)[0].v
                 if isinstance(r, VUnion):
-                    r = VRef(r.get('ref'))
+                    # only a location if the base is an object; otherwise an impossible reference (0)
+                    locs.setdefault(m.attr, []).append(z3.If(r.is_('ref'), r.get('ref'), z3.IntVal(0)))
+                    continue
                 locs.setdefault(m.attr, []).append(r.t)
             elif isinstance(m, ast.Call) and m.func.id == 'fields':
                 for a in m.args:
@@ -308,9 +310,17 @@ class Engine(EngineBase, AccessMixin, StmtMixin, CallMixin):
             elif isinstance(m, ast.Call) and m.func.id in ('allocates', 'callbacks'):
                 pass
             elif isinstance(m, ast.Call) and m.func.id == 'all_but':
-                keep_only = set('f:' + ast.literal_eval(a) for a in m.args)
+                keep_only = set('f:' + x for x in self.all_but_names(m))
         r = z3.Int('fr_r')
         k = z3.Int('fr_k')
+        changed_any = False
+        for name, arr in q.heap.items():
+            b0 = old_heap.get(name)
+            if b0 is not None and not arr.eq(b0) and name != '$next':
+                changed_any = True
+        if not changed_any and not c.modifies:
+            # modifies(): syntactically nothing was written on this path
+            self.oblige(q, '%s/frame:nothing-written' % c.key, z3.BoolVal(True), 'frame', assume_after=False)
         for name, arr in q.heap.items():
             base = old_heap.get(name)
             if base is None:
@@ -350,7 +360,7 @@ class Engine(EngineBase, AccessMixin, StmtMixin, CallMixin):
 CVC5 = '/usr/bin/cvc5'
 
 
-def solve(assumptions, goal, timeout_ms, want_model=True):
+def solve(assumptions, goal, timeout_ms, want_model=True, quick=False):
     """returns (result, backend, seconds, model|None, detail); result in proved / failed / unknown.
     z3's sequence solver is unstable on identical input, so an `unknown` is retried with other seeds before
     cvc5 gets the exported problem.  Only `unsat` (proved) and a `sat` whose model satisfies every assertion
@@ -366,7 +376,9 @@ def solve(assumptions, goal, timeout_ms, want_model=True):
     ver = 'z3-%s' % z3.get_version_string()
     reason = None
     s = None
-    plan = [(0, timeout_ms // 8)] + [(sd, timeout_ms // 16) for sd in (1, 2, 3, 4, 5, 6)] + [(7, timeout_ms // 4), (8, timeout_ms // 4), (9, timeout_ms // 2)]
+    has_quant = any(_has_quantifier(a) for a in asm) or _has_quantifier(goal)
+    candidate = None
+    plan = [(0, 2000)] if quick else [(0, timeout_ms // 8)] + [(sd, timeout_ms // 16) for sd in (1, 2, 3, 4, 5, 6)] + [(7, timeout_ms // 4), (8, timeout_ms // 4), (9, timeout_ms // 2)]
     for (seed, tmo) in plan:
         s = z3.Solver()
         s.set('timeout', max(tmo, 200))
@@ -390,22 +402,45 @@ def solve(assumptions, goal, timeout_ms, want_model=True):
                 if z3.is_false(v):
                     bad = a
                     break
-            if bad is None:
+            if bad is None and not has_quant:
                 return 'failed', ver, time.time() - t0, m, ''
+            if bad is None:
+                # with quantified hypotheses z3's `sat` only means "no refutation found with this instantiation
+                # strategy": remember the candidate model, keep trying to prove
+                candidate = candidate or m
+                reason = 'sat not certified (quantified hypotheses)'
+                continue
             # z3's sequence solver occasionally answers sat with a model that violates an assertion
             # (uninterpreted functions over Seq): such an answer is not believed
             reason = 'sat with a model violating an assertion'
             break
         reason = s.reason_unknown()
     dt = time.time() - t0
+    if quick:
+        return 'unknown', ver, dt, candidate, reason or ''
     t1 = time.time()
     res = run_cvc5(s, timeout_ms)
     dt2 = time.time() - t1
     if res == 'unsat':
         return 'proved', 'cvc5-1.0.3', dt + dt2, None, 'z3 unknown (%s)' % reason
     if res == 'sat':
-        return 'unknown', 'z3+cvc5', dt + dt2, None, 'z3 unknown (%s); cvc5 sat (no model extracted)' % reason
-    return 'unknown', 'z3+cvc5', dt + dt2, None, 'z3: %s; cvc5: %s' % (reason, res)
+        return 'unknown', 'z3+cvc5', dt + dt2, candidate, 'z3 unknown (%s); cvc5 sat (no model extracted)' % reason
+    return 'unknown', 'z3+cvc5', dt + dt2, candidate, 'z3: %s; cvc5: %s' % (reason, res)
+
+
+def _has_quantifier(t):
+    seen = set()
+    stack = [t]
+    while stack:
+        x = stack.pop()
+        if x.get_id() in seen:
+            continue
+        seen.add(x.get_id())
+        if z3.is_quantifier(x):
+            return True
+        if z3.is_app(x):
+            stack.extend(x.children())
+    return False
 
 
 def run_cvc5(solver, timeout_ms):
